@@ -143,6 +143,21 @@ def prop(case, rec):
     return c
 
 
+_FIXOUT = {}
+
+
+def _fixture_outputs():
+    if not _FIXOUT:
+        from pysmi.codegen.pysnmp import PySnmpCodeGen
+        from vlib import fixtures
+        st_ = fixtures.symtables()
+        for name in ('IF-MIB', 'IP-MIB', 'TCP-MIB', 'UDP-MIB'):
+            tree = pipeline.parser('smiV2').parse(fixtures.text(name))[0]
+            info, text = PySnmpCodeGen().genCode(tree, st_, comments=['fixture'])
+            _FIXOUT[name] = text
+    return _FIXOUT
+
+
 def real_prop(case, rec):
     """(5) the whole set loads together in a real pysnmp MibBuilder."""
     mset = case['mset']
@@ -157,6 +172,10 @@ def real_prop(case, rec):
     try:
         from pysnmp.smi import builder, error as smierror
         for name, text in c.py_text.items():
+            with open(os.path.join(tmp, name + '.py'), 'w') as f:
+                f.write(text)
+        # base MIBs that pysnmp does not ship (IF-MIB ...): their fixture texts, compiled by the same code generator
+        for name, text in _fixture_outputs().items():
             with open(os.path.join(tmp, name + '.py'), 'w') as f:
                 f.write(text)
         mb = builder.MibBuilder()
@@ -260,7 +279,23 @@ def probes(ctx):
     ctx.inline('probe', p)
 
 
+def closure_prop(case, rec):
+    """The set loads together: one compile() call for the whole set (everything available from the source) looks up
+    every module its outputs import from - also the SMIv2 homes that SMIv1 imports are relocated to."""
+    mset = case['mset']
+    texts, mm = setcheck.evaluate_compile(mset)
+    rec.evaluated()
+    rec.count('compile-route.sets')
+    if any(frm in ('RFC1213-MIB', 'RFC1158-MIB') for m in mset['modules'] for frm, syms in m['imports']):
+        rec.count('compile-route.with-relocated-smiv1-imports')
+        rec.mark_nontrivial(setcheck.set_digest(['closure', mset]))
+    for backend, facet, detail in mm:
+        if facet in ('compile-failed', 'import-closure'):
+            raise Violation('%s:%s' % (backend, facet), detail, case, {'texts': texts})
+
+
 def run(ctx):
+    ctx.search('closure', cases, closure_prop, ctx.pick(800, 20000))
     ctx.search('recorder', cases, prop, ctx.pick(2400, 50000))
     ctx.search('real', cases, real_prop, ctx.pick(800, 16000))
     probes(ctx)
@@ -271,5 +306,7 @@ def replay(ctx, data):
     rec = Recorder(ctx.findings)
     if data.get('search') == 'real':
         real_prop(data['case'], rec)
+    elif data.get('search') == 'closure':
+        closure_prop(data['case'], rec)
     else:
         prop(data['case'], rec)
